@@ -3,7 +3,7 @@
 # the quick checks on it: every check must exit 0 (an alarm or a harness error on such a change is a defect of /verif).
 set -u
 PATCH="$(readlink -f "$1")"; shift
-IDS="${*:-$(jq -r '.checks[].property_id' /verif/MANIFEST.json)}"
+IDS="${*:-$(jq -r '.checks[].property_id' "$(dirname "$0")/../MANIFEST.json")}"
 WT="$(mktemp -d /tmp/wt-ben.XXXXXX)"; OUT="$(mktemp -d /tmp/out-ben.XXXXXX)"; rmdir "$WT"
 git -C /repo worktree add -q "$WT" HEAD || exit 9
 cleanup() { git -C /repo worktree remove --force "$WT" 2>/dev/null; rm -rf "$OUT" "$WT"; }
@@ -11,7 +11,7 @@ trap cleanup EXIT
 if ! git -C "$WT" apply "$PATCH"; then echo "BENIGN $PATCH patch-does-not-apply"; exit 8; fi
 bad=""
 for id in $IDS; do
-  VERIF_REPO="$WT" VERIF_OUT="$OUT" /verif/check "$id" quick >"$OUT/$id.log" 2>&1; rc=$?
+  VERIF_REPO="$WT" VERIF_OUT="$OUT" "$(dirname "$0")/../check" "$id" quick >"$OUT/$id.log" 2>&1; rc=$?
   if [ $rc -ne 0 ]; then
     bad="$bad $id(rc=$rc)"
     echo "---- $id rc=$rc on $(basename "$(dirname "$PATCH")")/$(basename "$PATCH")"
